@@ -16,16 +16,20 @@ Boost (add v to both velocities):
   (x, t) with velocities shifted by v: same pattern, same region, same p, ρ, e (`solve_boost`).
 
 (P) the degenerate case L = R, where the `==`-based side detection mislabels the right state
-(`Riem.shockVel_right_degenerate`), is excluded by the hypothesis `q.Distinct`.  The mirror
-statement for the whole assembled solution is proved region by region; see `mirror_*`.
+(`Riem.shockVel_right_degenerate`), is excluded by the hypothesis `q.Distinct`.
+* Mirror, WHOLE assembled solution (`solve_mirror`): the answer for the mirrored problem at
+  2·xd0 - x is the mirror image of the answer at x (pattern, region, p, ρ, e, -u), for x off the
+  waves; uses the order of the wave speeds (`Riem.shock_speed_order`, `Riem.fan_speed_order`) and the
+  pressure range of the root in the selected pattern (`Riem.scr_range` …).
 -/
-import EPV.Lemmas.Riemann
+import EPV.Lemmas.RiemannOrder
+import EPV.Lemmas.RiemannMono
 
 set_option linter.all false
 
 open EPV EPV.Gen EPV.Model EPV.Spec.Riemann EPV.Riem
 
-namespace EPV.C09
+namespace EPV.C09.Riemann
 
 /-! ### mirror: the four star-state residuals -/
 
@@ -107,37 +111,29 @@ example : sod.pl ≠ 0 := by unfold sod; norm_num
 
 
 
-/-! ### mirror: side detection, wave speeds, star velocity, fan profiles -/
+/-! ### mirror: side detection, wave speeds, star velocity, fan profiles
 
-theorem mirror_distinct (q : Prob) (hd : q.Distinct) : q.mirror.Distinct := by
-  unfold Prob.Distinct Prob.mirror at *
-  simp only [neg_inj]
-  intro ⟨h1, h2, h3⟩; exact hd ⟨h1.symm, h2.symm, h3.symm⟩
+(proved in `EPV.Lemmas.RiemannOrder`, shared with the whole-solution theorem in
+`EPV.Props.C09.RiemannMirror`) -/
+
+theorem mirror_distinct (q : Prob) (hd : q.Distinct) : q.mirror.Distinct := Riem.mirror_distinct q hd
 
 /-- in the mirrored problem the original left state is the right state (sign -1) and the original
 right state is the left state (sign +1), provided L ≠ R -/
 theorem fanSgn_mirror (q : Prob) (hd : q.Distinct) :
-    fanSgn q.mirror q.pl q.rl (-q.ul) = -1 ∧ fanSgn q.mirror q.pr q.rr (-q.ur) = 1 :=
-  ⟨fanSgn_right q.mirror (mirror_distinct q hd), fanSgn_left q.mirror⟩
+    fanSgn q.mirror q.pl q.rl (-q.ul) = -1 ∧ fanSgn q.mirror q.pr q.rr (-q.ur) = 1 := Riem.fanSgn_mirror q hd
 
 /-- shock speeds of the mirrored problem are the negated original speeds -/
 theorem shockVel_mirror (q : Prob) (hd : q.Distinct) (px : ℝ) :
     shockVel q.mirror px q.pl q.rl (-q.ul) q.gl = -(shockVel q px q.pl q.rl q.ul q.gl) ∧
-    shockVel q.mirror px q.pr q.rr (-q.ur) q.gr = -(shockVel q px q.pr q.rr q.ur q.gr) := by
-  obtain ⟨s1, s2⟩ := fanSgn_mirror q hd
-  rw [shockVel_eq, shockVel_eq, shockVel_eq, shockVel_eq, s1, s2, fanSgn_left, fanSgn_right q hd]
-  constructor <;> ring
+    shockVel q.mirror px q.pr q.rr (-q.ur) q.gr = -(shockVel q px q.pr q.rr q.ur q.gr) := Riem.shockVel_mirror q hd px
 
 /-- star velocity: the mirrored driver computes it from the original RIGHT wave; with the atom
 hypothesis `X_call px = 0` it is the negated original star velocity (all four patterns) -/
 theorem ux_mirror (q : Prob) (px : ℝ) :
     (SCS q px = 0 → uxS q.mirror px = -(uxS q px)) ∧ (RCS q px = 0 → uxS q.mirror px = -(uxF q px)) ∧
-    (SCR q px = 0 → uxF q.mirror px = -(uxS q px)) ∧ (RCR q px = 0 → uxF q.mirror px = -(uxF q px)) := by
-  refine ⟨fun h => ?_, fun h => ?_, fun h => ?_, fun h => ?_⟩
-  · have := Riem.scs_ux q px h; simp only [uxS, Prob.mirror]; linear_combination this
-  · have := Riem.rcs_ux q px h; simp only [uxS, uxF, Prob.mirror]; linear_combination this
-  · have := Riem.scr_ux q px h; simp only [uxS, uxF, Prob.mirror]; linear_combination this
-  · have := Riem.rcr_ux q px h; simp only [uxF, Prob.mirror]; linear_combination this
+    (SCR q px = 0 → uxF q.mirror px = -(uxS q px)) ∧ (RCR q px = 0 → uxF q.mirror px = -(uxF q px)) :=
+  Riem.ux_mirror q px
 
 /-- fan profiles: the mirrored problem's fan through the (negated) original state, evaluated at the
 reflected point 2·xd0 - x, has the same ρ and p and the negated velocity -/
@@ -147,20 +143,8 @@ theorem fan_mirror (q : Prob) (hd : q.Distinct) (xd0 x t : ℝ) (ht : t ≠ 0) :
      fanU q.mirror q.pl q.rl (-q.ul) q.gl xd0 (2 * xd0 - x) t = -(fanU q q.pl q.rl q.ul q.gl xd0 x t)) ∧
     (fanRho q.mirror q.pr q.rr (-q.ur) q.gr xd0 (2 * xd0 - x) t = fanRho q q.pr q.rr q.ur q.gr xd0 x t ∧
      fanP q.mirror q.pr q.rr (-q.ur) q.gr xd0 (2 * xd0 - x) t = fanP q q.pr q.rr q.ur q.gr xd0 x t ∧
-     fanU q.mirror q.pr q.rr (-q.ur) q.gr xd0 (2 * xd0 - x) t = -(fanU q q.pr q.rr q.ur q.gr xd0 x t)) := by
-  obtain ⟨s1, s2⟩ := fanSgn_mirror q hd
-  have e : (2 * xd0 - x - xd0) / t = -((x - xd0) / t) := by field_simp; ring
-  have y1 : fanY q.mirror q.pl q.rl (-q.ul) q.gl xd0 (2 * xd0 - x) t = fanY q q.pl q.rl q.ul q.gl xd0 x t := by
-    unfold fanY; rw [s1, fanSgn_left, e]; ring
-  have y2 : fanY q.mirror q.pr q.rr (-q.ur) q.gr xd0 (2 * xd0 - x) t = fanY q q.pr q.rr q.ur q.gr xd0 x t := by
-    unfold fanY; rw [s2, fanSgn_right q hd, e]; ring
-  refine ⟨⟨?_, ?_, ?_⟩, ⟨?_, ?_, ?_⟩⟩
-  · rw [fanRho_eq, fanRho_eq, y1]
-  · rw [fanP_eq, fanP_eq, y1]
-  · rw [fanU_eq, fanU_eq, s1, fanSgn_left, e]; ring
-  · rw [fanRho_eq, fanRho_eq, y2]
-  · rw [fanP_eq, fanP_eq, y2]
-  · rw [fanU_eq, fanU_eq, s2, fanSgn_right q hd, e]; ring
+     fanU q.mirror q.pr q.rr (-q.ur) q.gr xd0 (2 * xd0 - x) t = -(fanU q q.pr q.rr q.ur q.gr xd0 x t)) :=
+  Riem.fan_mirror q hd xd0 x t ht
 
 /-! ### boost -/
 
@@ -321,4 +305,263 @@ theorem solve_boost (q : Prob) (v px xd0 x t : ℝ) (ht : t ≠ 0) (hgl : q.gl +
 /-- non-vacuity at the solver defaults -/
 example : (1 / 4 : ℝ) ≠ 0 ∧ sod.gl + 1 ≠ 0 ∧ sod.gr + 1 ≠ 0 := by unfold sod; norm_num
 
-end EPV.C09
+/-! ### mirror: the whole assembled solution -/
+
+/-- the mirror image of a state: velocity negated -/
+def mirrorState (s : RiemannIG.State ℝ) : RiemannIG.State ℝ := { s with u := -s.u }
+
+theorem mirror_proj (q : Prob) :
+    q.mirror.pl = q.pr ∧ q.mirror.rl = q.rr ∧ q.mirror.ul = -q.ur ∧ q.mirror.gl = q.gr ∧
+    q.mirror.pr = q.pl ∧ q.mirror.rr = q.rl ∧ q.mirror.ur = -q.ul ∧ q.mirror.gr = q.gl :=
+  ⟨rfl, rfl, rfl, rfl, rfl, rfl, rfl, rfl⟩
+
+theorem leftState_mirror (q : Prob) :
+    RiemannIG.leftState (toData q.mirror) = mirrorState (RiemannIG.rightState (toData q)) := by
+  rw [leftState_eq, rightState_eq]; rfl
+theorem rightState_mirror (q : Prob) :
+    RiemannIG.rightState (toData q.mirror) = mirrorState (RiemannIG.leftState (toData q)) := by
+  rw [leftState_eq, rightState_eq]; rfl
+
+private theorem pos_order {xd0 t a b : ℝ} (ht : 0 < t) (h : a < b) : xd0 + t * a < xd0 + t * b := by
+  have := mul_lt_mul_of_pos_left h ht; linarith
+
+private theorem refl_pos (xd0 t V : ℝ) : xd0 + t * -V = 2 * xd0 - (xd0 + t * V) := by ring
+
+/-- SCS ↦ SCS -/
+theorem solveWith_mirror_SCS (q : Prob) (hq : q.Admissible) (hd : q.Distinct) {px : ℝ} (hpx : 0 < px)
+    (h0 : SCS q px = 0) (xd0 x t : ℝ) (ht : 0 < t)
+    (hx : ∀ V ∈ RiemannIG.vregs (toData q) .SCS px, x ≠ xd0 + t * V) :
+    RiemannIG.solveWith (toData q.mirror) .SCS px xd0 (2 * xd0 - x) t
+      = (3 - (RiemannIG.solveWith (toData q) .SCS px xd0 x t).1,
+         mirrorState (RiemannIG.solveWith (toData q) .SCS px xd0 x t).2) := by
+  obtain ⟨hpl, hrl, hgl, hpr, hrr, hgr⟩ := id hq
+  obtain ⟨m1, m2, m3, m4, m5, m6, m7, m8⟩ := mirror_proj q
+  obtain ⟨sv1, sv2⟩ := Riem.shockVel_mirror q hd px
+  have hux := (Riem.ux_mirror q px).1 h0
+  -- order of the speeds
+  have o1 : shockVel q px q.pl q.rl q.ul q.gl < uxS q px := by
+    rw [shockVel_left_mflux q hq hpx.le]; unfold uxS
+    rw [shock_mflux hrl (by linarith) (NN_pos hpl hgl hpx.le)]
+    have := shock_speed_order hpl hrl hgl hpx
+    linarith
+  have o2 : uxS q px < shockVel q px q.pr q.rr q.ur q.gr := by
+    rw [shockVel_right_mflux q hq hd hpx.le]; unfold uxS
+    rw [Riem.scs_ux q px h0, shock_mflux hrr (by linarith) (NN_pos hpr hgr hpx.le)]
+    have := shock_speed_order hpr hrr hgr hpx
+    linarith
+  rw [vregs_SCS] at hx
+  have n0 := hx (shockVel q px q.pl q.rl q.ul q.gl) (by simp)
+  have n1 := hx (uxS q px) (by simp)
+  have n2 := hx (shockVel q px q.pr q.rr q.ur q.gr) (by simp)
+  have X01 : xd0 + t * shockVel q px q.pl q.rl q.ul q.gl < xd0 + t * uxS q px := pos_order ht o1
+  have X12 : xd0 + t * uxS q px < xd0 + t * shockVel q px q.pr q.rr q.ur q.gr := pos_order ht o2
+  -- the mirrored pieces
+  have hsL : RiemannIG.starL (toData q.mirror) .SCS px = mirrorState (RiemannIG.starR (toData q) .SCS px) := by
+    rw [starL_shock _ _ _ (Or.inl rfl), starR_shock _ _ _ (Or.inl rfl), ux_shock _ _ _ (Or.inl rfl), hux]
+    simp only [mirrorState, m1, m2, m4]
+  have hsR : RiemannIG.starR (toData q.mirror) .SCS px = mirrorState (RiemannIG.starL (toData q) .SCS px) := by
+    rw [starL_shock _ _ _ (Or.inl rfl), starR_shock _ _ _ (Or.inl rfl), ux_shock _ _ _ (Or.inl rfl), hux]
+    simp only [mirrorState, m5, m6, m8]
+  unfold RiemannIG.solveWith
+  rw [vregs_SCS, vregs_SCS]
+  simp only [RiemannIG.xregs, List.map, RiemannIG.regStates, m1, m2, m3, m4, m5, m6, m7, m8, sv1, sv2, hux, refl_pos,
+    hsL, hsR, leftState_mirror, rightState_mirror]
+  exact asm3_mirror _ _ _ _ mirrorState X01 X12 n0 n1 n2
+
+theorem toData_proj (q : Prob) :
+    (toData q).pl = q.pl ∧ (toData q).rl = q.rl ∧ (toData q).ul = q.ul ∧ (toData q).gl = q.gl ∧
+    (toData q).pr = q.pr ∧ (toData q).rr = q.rr ∧ (toData q).ur = q.ur ∧ (toData q).gr = q.gr :=
+  ⟨rfl, rfl, rfl, rfl, rfl, rfl, rfl, rfl⟩
+
+/-- the fan entries of the mirrored problem at the reflected point -/
+theorem fanState_mirror (q : Prob) (hd : q.Distinct) (xd0 x t : ℝ) (ht : t ≠ 0) :
+    RiemannIG.fanState (toData q.mirror) q.pl q.rl (-q.ul) q.gl (2 * xd0 - x) xd0 t
+      = mirrorState (RiemannIG.fanState (toData q) q.pl q.rl q.ul q.gl x xd0 t) ∧
+    RiemannIG.fanState (toData q.mirror) q.pr q.rr (-q.ur) q.gr (2 * xd0 - x) xd0 t
+      = mirrorState (RiemannIG.fanState (toData q) q.pr q.rr q.ur q.gr x xd0 t) := by
+  obtain ⟨⟨a1, a2, a3⟩, ⟨b1, b2, b3⟩⟩ := Riem.fan_mirror q hd xd0 x t ht
+  constructor
+  · rw [fanState_eq, fanState_eq]; simp only [mirrorState, a1, a2, a3]
+  · rw [fanState_eq, fanState_eq]; simp only [mirrorState, b1, b2, b3]
+
+/-- SCR ↦ RCS -/
+theorem solveWith_mirror_SCR (q : Prob) (hq : q.Admissible) (hd : q.Distinct) {px : ℝ} (hpx : 0 < px)
+    (h0 : SCR q px = 0) (hr : px < q.pr) (xd0 x t : ℝ) (ht : 0 < t)
+    (hx : ∀ V ∈ RiemannIG.vregs (toData q) .SCR px, x ≠ xd0 + t * V) :
+    RiemannIG.solveWith (toData q.mirror) .RCS px xd0 (2 * xd0 - x) t
+      = (4 - (RiemannIG.solveWith (toData q) .SCR px xd0 x t).1,
+         mirrorState (RiemannIG.solveWith (toData q) .SCR px xd0 x t).2) := by
+  obtain ⟨hpl, hrl, hgl, hpr, hrr, hgr⟩ := id hq
+  obtain ⟨m1, m2, m3, m4, m5, m6, m7, m8⟩ := mirror_proj q
+  obtain ⟨d1, d2, d3, d4, d5, d6, d7, d8⟩ := toData_proj q
+  obtain ⟨e1, e2, e3, e4, e5, e6, e7, e8⟩ := toData_proj q.mirror
+  obtain ⟨sv1, sv2⟩ := Riem.shockVel_mirror q hd px
+  obtain ⟨fm1, fm2⟩ := fanState_mirror q hd xd0 x t ht.ne'
+  have hux := (Riem.ux_mirror q px).2.2.1 h0
+  set ax2 := sound px (rhoRare px q.pr q.rr q.gr) q.gr with hax2
+  have hax2pos : 0 < ax2 := sound_pos hpx (rhoRare_pos hpr hrr hpx) (by linarith)
+  have o1 : shockVel q px q.pl q.rl q.ul q.gl < uxS q px := by
+    rw [shockVel_left_mflux q hq hpx.le]; unfold uxS
+    rw [shock_mflux hrl (by linarith) (NN_pos hpl hgl hpx.le)]
+    have := shock_speed_order hpl hrl hgl hpx
+    linarith
+  have o3 : uxS q px + ax2 < q.ur + sound q.pr q.rr q.gr := by
+    have := fan_speed_order hpr hrr hgr hpx hr
+    unfold uxS; rw [Riem.scr_ux q px h0]; linarith
+  rw [vregs_SCR] at hx
+  have n0 := hx (shockVel q px q.pl q.rl q.ul q.gl) (by simp)
+  have n1 := hx (uxS q px) (by simp)
+  have n2 := hx (uxS q px + ax2) (by simp [hax2])
+  have n3 := hx (q.ur + sound q.pr q.rr q.gr) (by simp)
+  have X01 : xd0 + t * shockVel q px q.pl q.rl q.ul q.gl < xd0 + t * uxS q px := pos_order ht o1
+  have X12 : xd0 + t * uxS q px < xd0 + t * (uxS q px + ax2) := pos_order ht (by linarith)
+  have X23 : xd0 + t * (uxS q px + ax2) < xd0 + t * (q.ur + sound q.pr q.rr q.gr) := pos_order ht o3
+  have hsL : RiemannIG.starL (toData q.mirror) .RCS px = mirrorState (RiemannIG.starR (toData q) .SCR px) := by
+    rw [starL_fan _ _ _ (Or.inl rfl), starR_fan _ _ _ (Or.inl rfl), ux_shock _ _ _ (Or.inr rfl), hux]
+    simp only [mirrorState, m1, m2, m4]
+  have hsR : RiemannIG.starR (toData q.mirror) .RCS px = mirrorState (RiemannIG.starL (toData q) .SCR px) := by
+    rw [starL_shock _ _ _ (Or.inr rfl), starR_shock _ _ _ (Or.inr rfl), ux_fan _ _ _ (Or.inl rfl), hux]
+    simp only [mirrorState, m5, m6, m8]
+  have f0 : -q.ur - sound q.pr q.rr q.gr = -(q.ur + sound q.pr q.rr q.gr) := by ring
+  have f1 : -uxS q px - ax2 = -(uxS q px + ax2) := by ring
+  unfold RiemannIG.solveWith
+  rw [vregs_RCS, vregs_SCR]
+  simp only [RiemannIG.xregs, List.map, RiemannIG.regStates, e1, e2, e3, e4, e5, e6, e7, e8, d1, d2, d3, d4, d5, d6, d7, d8,
+    m1, m2, m3, m4, m5, m6, m7, m8, sv1, sv2, hux, ← hax2, f0, f1, refl_pos, hsL, hsR, fm1, fm2, leftState_mirror,
+    rightState_mirror]
+  exact asm4_mirror _ _ _ _ _ mirrorState X01 X12 X23 n0 n1 n2 n3
+
+/-- RCS ↦ SCR -/
+theorem solveWith_mirror_RCS (q : Prob) (hq : q.Admissible) (hd : q.Distinct) {px : ℝ} (hpx : 0 < px)
+    (h0 : RCS q px = 0) (hl : px < q.pl) (xd0 x t : ℝ) (ht : 0 < t)
+    (hx : ∀ V ∈ RiemannIG.vregs (toData q) .RCS px, x ≠ xd0 + t * V) :
+    RiemannIG.solveWith (toData q.mirror) .SCR px xd0 (2 * xd0 - x) t
+      = (4 - (RiemannIG.solveWith (toData q) .RCS px xd0 x t).1,
+         mirrorState (RiemannIG.solveWith (toData q) .RCS px xd0 x t).2) := by
+  obtain ⟨hpl, hrl, hgl, hpr, hrr, hgr⟩ := id hq
+  obtain ⟨m1, m2, m3, m4, m5, m6, m7, m8⟩ := mirror_proj q
+  obtain ⟨d1, d2, d3, d4, d5, d6, d7, d8⟩ := toData_proj q
+  obtain ⟨e1, e2, e3, e4, e5, e6, e7, e8⟩ := toData_proj q.mirror
+  obtain ⟨sv1, sv2⟩ := Riem.shockVel_mirror q hd px
+  obtain ⟨fm1, fm2⟩ := fanState_mirror q hd xd0 x t ht.ne'
+  have hux := (Riem.ux_mirror q px).2.1 h0
+  set ax1 := sound px (rhoRare px q.pl q.rl q.gl) q.gl with hax1
+  have hax1pos : 0 < ax1 := sound_pos hpx (rhoRare_pos hpl hrl hpx) (by linarith)
+  have o0 : q.ul - sound q.pl q.rl q.gl < uxF q px - ax1 := by
+    have := fan_speed_order hpl hrl hgl hpx hl
+    unfold uxF; linarith
+  have o2 : uxF q px < shockVel q px q.pr q.rr q.ur q.gr := by
+    rw [shockVel_right_mflux q hq hd hpx.le]; unfold uxF
+    rw [Riem.rcs_ux q px h0, shock_mflux hrr (by linarith) (NN_pos hpr hgr hpx.le)]
+    have := shock_speed_order hpr hrr hgr hpx
+    linarith
+  rw [vregs_RCS] at hx
+  have n0 := hx (q.ul - sound q.pl q.rl q.gl) (by simp)
+  have n1 := hx (uxF q px - ax1) (by simp [hax1])
+  have n2 := hx (uxF q px) (by simp)
+  have n3 := hx (shockVel q px q.pr q.rr q.ur q.gr) (by simp)
+  have X01 : xd0 + t * (q.ul - sound q.pl q.rl q.gl) < xd0 + t * (uxF q px - ax1) := pos_order ht o0
+  have X12 : xd0 + t * (uxF q px - ax1) < xd0 + t * uxF q px := pos_order ht (by linarith)
+  have X23 : xd0 + t * uxF q px < xd0 + t * shockVel q px q.pr q.rr q.ur q.gr := pos_order ht o2
+  have hsL : RiemannIG.starL (toData q.mirror) .SCR px = mirrorState (RiemannIG.starR (toData q) .RCS px) := by
+    rw [starL_shock _ _ _ (Or.inr rfl), starR_shock _ _ _ (Or.inr rfl), ux_fan _ _ _ (Or.inl rfl), hux]
+    simp only [mirrorState, m1, m2, m4]
+  have hsR : RiemannIG.starR (toData q.mirror) .SCR px = mirrorState (RiemannIG.starL (toData q) .RCS px) := by
+    rw [starL_fan _ _ _ (Or.inl rfl), starR_fan _ _ _ (Or.inl rfl), ux_shock _ _ _ (Or.inr rfl), hux]
+    simp only [mirrorState, m5, m6, m8]
+  have f0 : -uxF q px + ax1 = -(uxF q px - ax1) := by ring
+  have f1 : -q.ul + sound q.pl q.rl q.gl = -(q.ul - sound q.pl q.rl q.gl) := by ring
+  unfold RiemannIG.solveWith
+  rw [vregs_SCR, vregs_RCS]
+  simp only [RiemannIG.xregs, List.map, RiemannIG.regStates, e1, e2, e3, e4, e5, e6, e7, e8, d1, d2, d3, d4, d5, d6, d7, d8,
+    m1, m2, m3, m4, m5, m6, m7, m8, sv1, sv2, hux, ← hax1, f0, f1, refl_pos, hsL, hsR, fm1, fm2, leftState_mirror,
+    rightState_mirror]
+  exact asm4_mirror _ _ _ _ _ mirrorState X01 X12 X23 n0 n1 n2 n3
+
+/-- RCR ↦ RCR -/
+theorem solveWith_mirror_RCR (q : Prob) (hq : q.Admissible) (hd : q.Distinct) {px : ℝ} (hpx : 0 < px)
+    (h0 : RCR q px = 0) (hl : px < q.pl) (hr : px < q.pr) (xd0 x t : ℝ) (ht : 0 < t)
+    (hx : ∀ V ∈ RiemannIG.vregs (toData q) .RCR px, x ≠ xd0 + t * V) :
+    RiemannIG.solveWith (toData q.mirror) .RCR px xd0 (2 * xd0 - x) t
+      = (5 - (RiemannIG.solveWith (toData q) .RCR px xd0 x t).1,
+         mirrorState (RiemannIG.solveWith (toData q) .RCR px xd0 x t).2) := by
+  obtain ⟨hpl, hrl, hgl, hpr, hrr, hgr⟩ := id hq
+  obtain ⟨m1, m2, m3, m4, m5, m6, m7, m8⟩ := mirror_proj q
+  obtain ⟨d1, d2, d3, d4, d5, d6, d7, d8⟩ := toData_proj q
+  obtain ⟨e1, e2, e3, e4, e5, e6, e7, e8⟩ := toData_proj q.mirror
+  obtain ⟨fm1, fm2⟩ := fanState_mirror q hd xd0 x t ht.ne'
+  have hux := (Riem.ux_mirror q px).2.2.2 h0
+  set ax1 := sound px (rhoRare px q.pl q.rl q.gl) q.gl with hax1
+  set ax2 := sound px (rhoRare px q.pr q.rr q.gr) q.gr with hax2
+  have hax1pos : 0 < ax1 := sound_pos hpx (rhoRare_pos hpl hrl hpx) (by linarith)
+  have hax2pos : 0 < ax2 := sound_pos hpx (rhoRare_pos hpr hrr hpx) (by linarith)
+  have o0 : q.ul - sound q.pl q.rl q.gl < uxF q px - ax1 := by
+    have := fan_speed_order hpl hrl hgl hpx hl
+    unfold uxF; linarith
+  have o3 : uxF q px + ax2 < q.ur + sound q.pr q.rr q.gr := by
+    have := fan_speed_order hpr hrr hgr hpx hr
+    unfold uxF; rw [Riem.rcr_ux q px h0]; linarith
+  rw [vregs_RCR] at hx
+  have n0 := hx (q.ul - sound q.pl q.rl q.gl) (by simp)
+  have n1 := hx (uxF q px - ax1) (by simp [hax1])
+  have n2 := hx (uxF q px) (by simp)
+  have n3 := hx (uxF q px + ax2) (by simp [hax2])
+  have n4 := hx (q.ur + sound q.pr q.rr q.gr) (by simp)
+  have X01 : xd0 + t * (q.ul - sound q.pl q.rl q.gl) < xd0 + t * (uxF q px - ax1) := pos_order ht o0
+  have X12 : xd0 + t * (uxF q px - ax1) < xd0 + t * uxF q px := pos_order ht (by linarith)
+  have X23 : xd0 + t * uxF q px < xd0 + t * (uxF q px + ax2) := pos_order ht (by linarith)
+  have X34 : xd0 + t * (uxF q px + ax2) < xd0 + t * (q.ur + sound q.pr q.rr q.gr) := pos_order ht o3
+  have hsL : RiemannIG.starL (toData q.mirror) .RCR px = mirrorState (RiemannIG.starR (toData q) .RCR px) := by
+    rw [starL_fan _ _ _ (Or.inr rfl), starR_fan _ _ _ (Or.inr rfl), ux_fan _ _ _ (Or.inr rfl), hux]
+    simp only [mirrorState, m1, m2, m4]
+  have hsR : RiemannIG.starR (toData q.mirror) .RCR px = mirrorState (RiemannIG.starL (toData q) .RCR px) := by
+    rw [starL_fan _ _ _ (Or.inr rfl), starR_fan _ _ _ (Or.inr rfl), ux_fan _ _ _ (Or.inr rfl), hux]
+    simp only [mirrorState, m5, m6, m8]
+  have f0 : -q.ur - sound q.pr q.rr q.gr = -(q.ur + sound q.pr q.rr q.gr) := by ring
+  have f1 : -uxF q px - ax2 = -(uxF q px + ax2) := by ring
+  have f2 : -uxF q px + ax1 = -(uxF q px - ax1) := by ring
+  have f3 : -q.ul + sound q.pl q.rl q.gl = -(q.ul - sound q.pl q.rl q.gl) := by ring
+  unfold RiemannIG.solveWith
+  rw [vregs_RCR, vregs_RCR]
+  simp only [RiemannIG.xregs, List.map, RiemannIG.regStates, e1, e2, e3, e4, e5, e6, e7, e8, d1, d2, d3, d4, d5, d6, d7, d8,
+    m1, m2, m3, m4, m5, m6, m7, m8, hux, ← hax1, ← hax2, f0, f1, f2, f3, refl_pos, hsL, hsR, fm1, fm2, leftState_mirror,
+    rightState_mirror]
+  exact asm5_mirror _ _ _ _ _ _ mirrorState X01 X12 X23 X34 n0 n1 n2 n3 n4
+
+/-- C09 (mirror), whole solution.  Exchange the two states, negate the velocities, reflect about the
+membrane: the solver's answer for the mirrored problem at the reflected point 2·xd0 - x is the
+mirror image of its answer for the original problem at x — mirror-image pattern, regions counted
+from the other end, same p, ρ, e, negated u.  Hypotheses: admissible data, L ≠ R (P), t > 0, `px`
+the root of the residual of the pattern the driver selects (atom), and x not exactly on a wave
+(the driver's `xl <= x` makes every region closed on the left, its mirror image closed on the right). -/
+theorem solve_mirror (q : Prob) (hq : q.Admissible) (hd : q.Distinct) {px : ℝ} (hpx : 0 < px) (xd0 x t : ℝ)
+    (ht : 0 < t) (hx : ∀ V ∈ RiemannIG.vregs (toData q) (RiemannIG.classify (toData q)) px, x ≠ xd0 + t * V) :
+    (RiemannIG.classify (toData q) = .SCS → SCS q px = 0 →
+      Riem.solve q.mirror px xd0 (2 * xd0 - x) t
+        = (.SCS, 3 - (Riem.solve q px xd0 x t).2.1, mirrorState (Riem.solve q px xd0 x t).2.2)) ∧
+    (RiemannIG.classify (toData q) = .SCR → SCR q px = 0 →
+      Riem.solve q.mirror px xd0 (2 * xd0 - x) t
+        = (.RCS, 4 - (Riem.solve q px xd0 x t).2.1, mirrorState (Riem.solve q px xd0 x t).2.2)) ∧
+    (RiemannIG.classify (toData q) = .RCS → RCS q px = 0 →
+      Riem.solve q.mirror px xd0 (2 * xd0 - x) t
+        = (.SCR, 4 - (Riem.solve q px xd0 x t).2.1, mirrorState (Riem.solve q px xd0 x t).2.2)) ∧
+    (RiemannIG.classify (toData q) = .RCR → RCR q px = 0 →
+      Riem.solve q.mirror px xd0 (2 * xd0 - x) t
+        = (.RCR, 5 - (Riem.solve q px xd0 x t).2.1, mirrorState (Riem.solve q px xd0 x t).2.2)) := by
+  have hpl : q.pl ≠ 0 := hq.1.ne'
+  have hcm := classify_mirror q hpl
+  refine ⟨fun hc h0 => ?_, fun hc h0 => ?_, fun hc h0 => ?_, fun hc h0 => ?_⟩ <;>
+    simp only [Riem.solve, RiemannIG.solve, hcm, hc, mirrorPat] <;> rw [hc] at hx
+  · rw [solveWith_mirror_SCS q hq hd hpx h0 xd0 x t ht hx]
+  · have hr := (scr_range q hq hpx h0 (chain_SCR (by rw [← classify_eq]; exact hc))).2
+    rw [solveWith_mirror_SCR q hq hd hpx h0 hr xd0 x t ht hx]
+  · have hr := (rcs_range q hq hpx h0 (chain_RCS (by rw [← classify_eq]; exact hc))).2
+    rw [solveWith_mirror_RCS q hq hd hpx h0 hr xd0 x t ht hx]
+  · have hr := rcr_range q hq hpx h0 (chain_RCR (by rw [← classify_eq]; exact hc))
+    rw [solveWith_mirror_RCR q hq hd hpx h0 hr.1 hr.2 xd0 x t ht hx]
+
+/-- non-vacuity -/
+example : sod.Admissible ∧ sod.Distinct ∧ (0 : ℝ) < 3 / 10 ∧ (0 : ℝ) < 1 / 4 :=
+  ⟨sod_admissible.1, sod_admissible.2, by norm_num, by norm_num⟩
+
+end EPV.C09.Riemann
